@@ -2,6 +2,7 @@ use crate::obl::Obl;
 pub mod c01;
 pub mod c02;
 pub mod c08;
+pub mod c09;
 pub mod c10;
 pub mod c14;
 pub mod c15;
@@ -11,6 +12,7 @@ pub fn all() -> Vec<Obl> {
     c01::register(&mut l);
     c02::register(&mut l);
     c08::register(&mut l);
+    c09::register(&mut l);
     c10::register(&mut l);
     c14::register(&mut l);
     c15::register(&mut l);
